@@ -145,6 +145,15 @@ class CustomError(Exception):
     """A user-defined exception type (importable, so that it survives the serializer)."""
 
 
+class UnserError(Exception):
+    """A user exception that cannot be serialized."""
+    def __reduce__(self):
+        raise RuntimeError("cannot serialize UnserError")
+
+    def __getstate__(self):
+        raise RuntimeError("cannot serialize UnserError")
+
+
 class HandlerError(Exception):
     """Raised by the harness's failing data handlers / resolvers / extractors."""
 
